@@ -10,6 +10,7 @@ def main():
     mod = importlib.import_module(f"contracts.{area}")
     spec = SpecLib(getattr(mod, "SPEC_MODULES", ("wire",)))
     eng = Engine(mod.CONTRACTS + getattr(mod, "EXTRA_CONTRACTS", []), spec)
+    spec.plugins += getattr(mod, "PLUGINS", [])
     eng.lemmas = {L.name: L for L in getattr(mod, "LEMMAS", [])}
     obls = []
     t0 = time.time()
